@@ -180,6 +180,13 @@ def entry_points(T: str, D: str, variant: int = 0):
                 eps.append(("polynomial((p_T, p_D) tuple of polynomials, dtype=D)", lambda: numpoly.polynomial((numpoly.polynomial(xT[0]), numpoly.polynomial(yD[1])), dtype=D),
                             {(0,): numpy.array([xT[:1].astype(D)[0], yD[1:2].astype(D)[0]], dtype=D)}))
             if variant == 1 and numpy.dtype(T).kind in "iu" and numpy.dtype(T).itemsize == 8 and numpy.dtype(D).kind == "f":
+                # the same with whole rows that are polynomial arrays (1-d), next to a row of the other type
+                bigrow = numpy.array([2 ** 62 + 1, 2 ** 53 + 1, 3], dtype=T)
+                frow = numpy.array([0.5, 1.0, -2.0], dtype=D)
+                with numpy.errstate(all="ignore"):
+                    wantrows = numpy.array([bigrow, frow.astype(T)], dtype=T)
+                eps.append(("polynomial([row_T polynomial, row_D polynomial], dtype=T)", lambda: numpoly.polynomial([numpoly.polynomial(bigrow), numpoly.polynomial(frow)], dtype=T), {(0,): wantrows}))
+                eps.append(("polynomial((row_T polynomial, row_D array), dtype=T)", lambda: numpoly.polynomial((numpoly.polynomial(bigrow), frow), dtype=T), {(0,): wantrows}))
                 # 64-bit integers next to floats, an integer type requested: each element is cast once (no detour through the
                 # common float type, which cannot hold 2**53+1)
                 big = 2 ** 53 + 1
